@@ -1,5 +1,6 @@
 // Simulation core + link-time interposers.  See sim.h.
 #include "sim.h"
+#include <sanitizer/common_interface_defs.h>
 #include <arpa/inet.h>
 #include <cerrno>
 #include <sys/epoll.h>
@@ -476,6 +477,7 @@ int __wrap_coap_socket_connect_udp(coap_socket_t *sock, const coap_address_t *lo
 ssize_t __wrap_coap_socket_send(coap_socket_t *sock, coap_session_t *session, const uint8_t *data, size_t datalen) {
   VSock *v = W->by_fd(sock->fd);
   if (!v) { errno = EBADF; return -1; }
+  { static const char *bt = getenv("SIM_BT_LEN"); if (bt && (size_t)atoi(bt) == datalen) __sanitizer_print_stack_trace(); }  // triage aid
   Addr dst = Addr::from_coap(&session->addr_info.remote);
   Addr src;
   if (v->kind == VSock::UDP_CONN) src = v->local;
